@@ -55,8 +55,27 @@ Definition canonical_name (nm : names_map) (e : expr) : string :=
   | None => match lookup_nm e nm with Some n => n | None => EmptyString end
   end.
 
+(** the writer repairs prepared under patches/ (all flags [false] = the shipped writer):
+    [w_no_array_alias] = patches/0008 (no trailing alias line for an array, since the alias line is a
+    zero-bit extension; goes with the reader patch 0009 = [Fix2]), [w_input_labels] = patches/0010 (a bad/constraint label is not named
+    after an input it refers to directly, so that the input keeps its name on its declaration) *)
+Record writer_variant : Type :=
+  { w_no_array_alias : bool; w_input_labels : bool; w_last_label : bool; w_symbol_labels : bool }.
+Definition writer_cur : writer_variant :=
+  {| w_no_array_alias := false; w_input_labels := false; w_last_label := false; w_symbol_labels := false |}.
+(** [w_last_label] = patches/0011: only the LAST bad/constraint label that refers to an expression directly
+    is named after it (the reader keeps the last one; an earlier label with the same base takes the
+    name away from the alias line) *)
+Definition writer_fix : writer_variant :=
+  {| w_no_array_alias := true; w_input_labels := true; w_last_label := true; w_symbol_labels := false |}.
+(** experiment (not proposed as a patch, see patches/BTOR2-NAMES-README.txt): no label is named after any symbol *)
+Definition writer_exp : writer_variant :=
+  {| w_no_array_alias := true; w_input_labels := true; w_last_label := false; w_symbol_labels := true |}.
+
 (** [label_name_base] *)
-Definition label_base (nm : names_map) (e : expr) (default : string) : string :=
+Definition label_base (wv : writer_variant) (sy : sys) (nm : names_map) (e : expr) (default : string) : string :=
+  if (w_input_labels wv && existsb (expr_eqb e) (s_inputs sy)) ||
+     (w_symbol_labels wv && match symbol_name e with Some _ => true | None => false end) then default else
   let n := match symbol_name e with Some n => Some n | None => lookup_nm e nm end in
   match n with
   | Some n => if is_autogen_name n then default else n
@@ -75,10 +94,19 @@ Fixpoint uniq_all (bases : list string) (used : list string) : list string * lis
 
 Record labels : Type := { l_outputs : list string; l_constraints : list string; l_bads : list string }.
 
-Definition compute_labels (nm : names_map) (sy : sys) : labels :=
+Fixpoint label_bases (wv : writer_variant) (sy : sys) (nm : names_map) (default : string)
+         (l after : list expr) : list string :=
+  match l with
+  | [] => []
+  | e :: l' =>
+      (if w_last_label wv && existsb (expr_eqb e) (l' ++ after)%list then default
+       else label_base wv sy nm e default) :: label_bases wv sy nm default l' after
+  end.
+
+Definition compute_labels (wv : writer_variant) (nm : names_map) (sy : sys) : labels :=
   let '(o, u1) := uniq_all (map fst (s_outputs sy)) reserved_names in
-  let '(c, u2) := uniq_all (map (fun e => label_base nm e "_constraint"%string) (s_constraints sy)) u1 in
-  let '(b, _) := uniq_all (map (fun e => label_base nm e "_bad"%string) (s_bads sy)) u2 in
+  let '(c, u2) := uniq_all (label_bases wv sy nm "_constraint"%string (s_constraints sy) (s_bads sy)) u1 in
+  let '(b, _) := uniq_all (label_bases wv sy nm "_bad"%string (s_bads sy) []) u2 in
   {| l_outputs := o; l_constraints := c; l_bads := b |}.
 
 Definition all_labels (l : labels) : list string := (l_outputs l ++ l_constraints l ++ l_bads l)%list.
@@ -97,11 +125,12 @@ Fixpoint dedup_exprs (l : list expr) (seen : list expr) : list expr :=
   | e :: l' => if existsb (expr_eqb e) seen then dedup_exprs l' seen else e :: dedup_exprs l' (e :: seen)
   end.
 
-Definition alias_needed (nm : names_map) (sy : sys) (lb : labels) : list expr :=
+Definition alias_needed (wv : writer_variant) (nm : names_map) (sy : sys) (lb : labels) : list expr :=
   let pairs := (combine (map snd (s_outputs sy)) (l_outputs lb) ++ combine (s_constraints sy) (l_constraints lb)
                 ++ combine (s_bads sy) (l_bads lb))%list in
   filter (fun e =>
             let name := canonical_name nm e in
+            negb (w_no_array_alias wv && negb (is_bv_ty (type_of e))) &&
             negb (String.eqb name EmptyString) && negb (is_autogen_name name) &&
             match last_label e pairs None with Some l => negb (String.eqb name l) | None => false end)
          (dedup_exprs (map fst pairs) []).
@@ -236,9 +265,9 @@ Definition emit_aliases (c : nctx) (st : wstate) : wstate :=
                    emit st2 [num lid; "uext"%string; num sort; num tid; "0"%string; name]
                end) targets st.
 
-Definition serialize_named (sy : sys) (nm : names_map) : pres (list (list string)) :=
-  let lb := compute_labels nm sy in
-  let c := {| n_names := nm; n_labels := all_labels lb; n_alias := alias_needed nm sy lb |} in
+Definition serialize_named_v (wv : writer_variant) (sy : sys) (nm : names_map) : pres (list (list string)) :=
+  let lb := compute_labels wv nm sy in
+  let c := {| n_names := nm; n_labels := all_labels lb; n_alias := alias_needed wv nm sy lb |} in
   let st1 := fold_left (emit_input_n c) (s_inputs sy) w_empty in
   r <- emit_states_n c st1 (s_states sy) ;; let '(st2, ids) := r in
   st3 <- emit_props_n c "output" st2 (map snd (s_outputs sy)) (l_outputs lb) ;;
@@ -247,3 +276,5 @@ Definition serialize_named (sy : sys) (nm : names_map) : pres (list (list string
   let st6 := emit_aliases c st5 in
   st7 <- emit_nexts_n c st6 (s_states sy) ids ;;
   POk (rev (w_lines st7)).
+
+Definition serialize_named (sy : sys) (nm : names_map) : pres (list (list string)) := serialize_named_v writer_cur sy nm.
